@@ -99,8 +99,9 @@ def run(ctx, rep):
     for t, st, calls in an.paths() or []:
         (oks if (t.op == "agg" and t.args[3] == "Ok") else errs).append(t)
     rep.require(oks == [want_ok], "strtab", "get:value", w, "get(off) = from_utf8(get_raw(off)?)?", "get returns %s" % [pp(t)[:160] for t in oks])
-    e1 = T.agg("adt", "result::Result", 1, "Err", [T.call("convert::From::from", (), [T.payload(raw, "Err")])])
-    e2 = T.agg("adt", "result::Result", 1, "Err", [T.call("convert::From::from", (), [T.payload(utf, "Err")])])
+    e1 = T.agg("adt", "result::Result", 1, "Err", [T.payload(raw, "Err")])
+    uv = [i for i, v in enumerate(F.adts["parse::ParseError"]["variants"]) if v["name"] == "Utf8Error"]
+    e2 = T.agg("adt", "result::Result", 1, "Err", [T.agg("adt", "parse::ParseError", uv[0] if uv else -1, "Utf8Error", [T.payload(utf, "Err")])])
     rep.require(set(errs) == {e1, e2}, "strtab", "get:errors", w, "get_raw's error and the UTF-8 error are propagated", "get error outcomes: %s" % [pp(t)[:120] for t in errs])
     fn2 = F.fn("string_table::StringTable::new")
     if fn2 is not None:
